@@ -20,7 +20,7 @@ Definition owns (q : proc) : bool := p_guard q || at_acq_write (p_pc q).
 Definition needs_guard (k : pc) : bool :=
   match k with MetaTmp | MetaRemove | MetaRename | Serving | DropMeta | DropLock => true | _ => false end.
 Definition stale_arg (k : pc) : option pid :=
-  match k with StExists d | StReread d | StRename d | StRdMeta d | StMetaRename d => Some d | _ => None end.
+  match k with StExists d | StReread d | StRename d | StRdMeta d | StMetaRename d | LockExistsM d => Some d | _ => None end.
 (* between the check and the rename of a lock cleanup *)
 Definition lock_win (k : pc) : bool :=
   match k with StRename _ | CoExists | CoMetaExists | CoRdMeta | CoLive _ | CoRename => true | _ => false end.
@@ -457,7 +457,7 @@ Definition quiet_pc (k : pc) : bool :=
 Record qlocal (s : state) (q : proc) : Prop := mkQ {
   Q_alive : p_alive q = true;
   Q_pc : quiet_pc (p_pc q) = true;
-  Q_live : forall p, (p_pc q = Live p \/ p_pc q = Ping p) -> pid_alive (s_procs s) p = true;
+  Q_live : forall p, (p_pc q = Live p \/ p_pc q = Ping p \/ p_pc q = LiveM p) -> pid_alive (s_procs s) p = true;
   Q_drv : drv_ok (p_drv q) = true
 }.
 
@@ -483,9 +483,10 @@ Proof.
   all: break; inversion H; subst; clear H; eqbs.
   all: unfold files_live, set_files; cbn; rw; cbn in *.
   all: try (match goal with H : pid_alive _ ?c = false |- _ =>
-              first [ rewrite (Fl c eq_refl) in H | rewrite (Ql c (or_introl eq_refl)) in H ]; discriminate end).
+              first [ rewrite (Fl c eq_refl) in H | rewrite (Ql c (or_introl eq_refl)) in H
+                    | rewrite (Ql c (or_intror (or_intror eq_refl))) in H ]; discriminate end).
   all: split; [constructor; cbn; rewrite ?Hpc, ?Hd; cbn; auto;
-                intros p0 [X|X]; try discriminate; inversion X; subst; auto
+                intros p0 [X|[X|X]]; try discriminate; inversion X; subst; auto
               | repeat split; intros p0 X; try discriminate; try (inversion X; subst); auto ].
 Qed.
 
@@ -565,7 +566,7 @@ Lemma init_quiet l m ps :
 Proof.
   intros [ND [Hq _]] Hl Hm. constructor.
   - intros q Hin. cbn in Hin. destruct (Hq q Hin) as [[E|E]|[E _]]; constructor; rewrite E; cbn; try reflexivity;
-      intros p [X|X]; discriminate.
+      intros p [X|[X|X]]; discriminate.
   - unfold files_live; cbn. repeat split; auto. intros p X; discriminate.
 Qed.
 
